@@ -24,7 +24,7 @@ TEMPLATES = [
     ("closure_if_let", "(do (var g nil) (if (< a b) (let [p (+ a 1)] (set g (fn [] (+ p c)))) (let [q (- a 1)] (set g (fn [] (- q c))))) (def u (* b 3)) (def v (* b 5)) (+ (+ (g) u) v))", "(a < b) ? (((a + 1) + c) + b * 3) + b * 5 : (((a - 1) - c) + b * 3) + b * 5"),
     ("quasi_len", "(length ~(1 ,a ,;[b c]))", "4"),
 ]
-QUICK = ("arith", "if_lt", "var_set", "let_chain", "for_sum", "destructure", "dropped_value", "and_or", "case_num", "closure_deep_block", "closure_if_let", "closure_mut")
+QUICK = ("arith", "if_lt", "var_set", "let_chain", "for_sum", "destructure", "dropped_value", "and_or", "case_num")
 CONTEXTS = [
     ("top", "(fn [a b c] %s)"),
     ("nested", "(fn [a b c] (def r ((fn [] %s))) r)"),
@@ -89,7 +89,7 @@ def prepare(tier, vf):
             "no_body_deny_re": "^(janet_(fiber|continue|call|in|get|put|next|length|binop|mcall|tuple|array|struct|table)|run_vm)",
             "backend": "cadical", "unwind": 24, "unwind_functions": {"run_vm": 400, "memcpy": 600, "memmove": 600, "janet_fiber_funcframe": 300, "janet_fiber_funcframe_tail": 300}, "timeout": 400, "mem_gb": 4,
             "cases": [dict({"name": CONTEXTS[i][0], "D": ["-DVF_CTX=%d" % i],
-                            "tier": "quick" if ((CONTEXTS[i][0] in ("nontail", "loop") and name in QUICK) or (CONTEXTS[i][0] == "nested" and name in ("arith", "if_lt", "var_set", "closure_deep_block"))) else "thorough", "timeout": 400, "timeout_thorough": 1500},
+                            "tier": "quick" if (CONTEXTS[i][0] in ("nontail", "loop") and name in QUICK) else "thorough", "timeout": 400, "timeout_thorough": 1500},
                            **({"unwind": 300} if CONTEXTS[i][0] == "manylocals" else {})) for i in range(1, len(CONTEXTS))],
             "functions_encoded": ["vm.c: run_vm, janet_continue*", "fiber.c: frames, closures environments (janet_env_detach, janet_env_valid)", "compile.c, specials.c, emit.c, regalloc.c, cfuns.c, bytecode.c and the boot.janet macros of the current tree run concretely to produce each function (fdump)"],
             "asserted": ["K1: for every template and ALL number inputs a b c, the code compiled at top level, inside a nested closure (called in non-tail position: a tail call detaches the environment, and CBMC then loses track of the detached value array), inside a loop body, in non-tail position and with 260 live locals returns bit-identical results and raises in none",
